@@ -89,7 +89,7 @@ func c09Cone(p *Prog) map[*ssa.Function]bool {
 	add(p.Func(modPath+"/datadictionary", "Parse"))
 	add(p.Func(modPath+"/datadictionary", "ParseSrc"))
 	add(p.Method(modPath, "parser", "ReadMessage"))
-	add(p.Method(modPath, "stateMachine", "Incoming"))
+	add(p.incomingFn())
 	add(p.Method(modPath, "Acceptor", "handleConnection"))
 	// exported methods of the message model
 	for _, tn := range []string{"FieldMap", "Message", "Header", "Body", "Trailer", "RepeatingGroup", "Group"} {
@@ -1480,7 +1480,7 @@ func c09K5(c *Ctx) {
 
 func c09K6(c *Ctx) {
 	p := c.P
-	inc := p.Method(modPath, "stateMachine", "Incoming")
+	inc := p.incomingFn()
 	name := FuncName(inc)
 	fPeer := p.Field(modPath, "session", "peerTimer")
 	parseFn := p.Func(modPath, "ParseMessageWithDataDictionary")
@@ -1506,7 +1506,7 @@ func c09K6(c *Ctx) {
 		return isFieldOrg(p.Origin(cc.Args[0]), fPeer)
 	}
 	// state-changing callees
-	setState := p.Method(modPath, "stateMachine", "setState")
+	setState := transitionFn(p)
 	fState := p.Field(modPath, "stateMachine", "State")
 	changes := func(in ssa.Instruction) bool {
 		if st, ok := in.(*ssa.Store); ok && fieldAddrOf(st.Addr, fState) != nil {
@@ -1688,4 +1688,20 @@ func (p *Prog) debugMayStore(fn *ssa.Function, f *types.Var) string {
 		}
 	}
 	return ""
+}
+
+// transitionFn: the function that stores computed states into stateMachine.State.
+func transitionFn(p *Prog) *ssa.Function {
+	fState := p.Field(modPath, "stateMachine", "State")
+	var out *ssa.Function
+	for _, st := range p.FieldStores(fState) {
+		o := p.Origin(st.Store.Val)
+		if !(o.Kind == "lit" || o.Kind == "zero" || o.Kind == "const") {
+			out = st.Fn
+		}
+	}
+	if out == nil {
+		anchorFail("transition function (stores computed states into stateMachine.State)")
+	}
+	return out
 }
